@@ -108,25 +108,153 @@ def deliver(ctx, HttpSource, enc, raw, chunks, exp, how):
         ctx.violation(sig, "HttpSource._byte_it_(%r) on %r delivered as %r gave lines %r, the text read at once has %r" % (enc, raw, chunks if enc is None else "%d chunks cut at plain offsets %s" % (len(chunks), sorted(cuts)), got, exp), rep)
 
 
-def run_delim(ctx, rng):
-    from coba.pipes.sources import HttpSource, DiskSource
-    from coba.pipes.sinks import DiskSink
-    runs = []
+class TlcPool:
+    """The TLC runs of one check are independent of each other: they are started together (a few at a time) and
+    each result is taken when the replay needs it.  Nothing depends on which finishes first."""
+    def __init__(self, ctx, parallel):
+        from concurrent.futures import ThreadPoolExecutor
+        self.ctx = ctx; self.ex = ThreadPoolExecutor(parallel); self.f = {}
+    def submit(self, mode, name, sub, heap):
+        sub = dict(sub)
+        if mode != "delim": sub['Mode = "delim"'] = 'Mode = "%s"' % mode
+        cfg = tracecheck._cfg("DatasetFiles.cfg", sub, self.ctx.scratch, "%s_%s.cfg" % (mode, name))
+        self.f[(mode, name)] = self.ex.submit(tlc.run, "DatasetFiles", cfg, self.ctx.scratch, workers=16, timeout=3000, heap=heap)
+    def get(self, mode, name):
+        r = self.f.pop((mode, name)).result()
+        self.ctx.add_tlc("DatasetFiles_%s_%s" % (mode, name), r)
+        for v in r.violations:
+            self.ctx.violation("spec:%s" % (v["name"] or v["kind"]), "DatasetFiles.tla (%s) itself violates %s: the spec's writer / reference grammar / line assembler disagree" % (mode, v["name"]), v["trace"][:40])
+        return r
+
+
+def delim_runs(ctx):
     if ctx.quick:
-        runs.append(("all3", {'Syms = {"x", "E", "L", "C"}': 'Syms = {"x", "y", "E", "W", "L", "C"}'}))
-        runs.append(("uniform5", {"MaxSyms = 3": "MaxSyms = 5", 'CutMode = "all"': 'CutMode = "uniform"'}))
-    else:
-        runs.append(("all4", {'Syms = {"x", "E", "L", "C"}': 'Syms = {"x", "y", "E", "W", "L", "C"}', "MaxSyms = 3": "MaxSyms = 4"}))
-        runs.append(("all5", {"MaxSyms = 3": "MaxSyms = 5"}))
-        runs.append(("uniform7", {"MaxSyms = 3": "MaxSyms = 7", 'CutMode = "all"': 'CutMode = "uniform"'}))
+        return [("all3", {'Syms = {"x", "E", "L", "C"}': 'Syms = {"x", "y", "E", "W", "L", "C"}'}),
+                ("uniform5", {"MaxSyms = 3": "MaxSyms = 5", 'CutMode = "all"': 'CutMode = "uniform"'})]
+    return [("all4", {'Syms = {"x", "E", "L", "C"}': 'Syms = {"x", "y", "E", "W", "L", "C"}', "MaxSyms = 3": "MaxSyms = 4", "Reads = 2": "Reads = 1"}),
+            ("all5", {"MaxSyms = 3": "MaxSyms = 5", "Reads = 2": "Reads = 1"}),
+            ("uniform7", {"MaxSyms = 3": "MaxSyms = 7", 'CutMode = "all"': 'CutMode = "uniform"'})]
+
+
+def table_runs(ctx):
+    if ctx.quick:
+        return [("arff", "k2", {"K = 1": "K = 2"}),
+                ("arff", "k2ssn", {"K = 1": "K = 2", 'Shapes = {"nsc"}': 'Shapes = {"ssn"}', "SparseSet = {FALSE, TRUE}": "SparseSet = {FALSE}"}),
+                ("arff", "k1", {'Shapes = {"nsc"}': 'Shapes = {"sc", "cns", "dn", "s", "ssn", "nnc"}', "Rich = FALSE": "Rich = TRUE"}),
+                ("csv", "k2", {"K = 1": "K = 2", 'Shapes = {"nsc"}': 'Shapes = {"c2"}'}),
+                ("csv", "k1", {'Shapes = {"nsc"}': 'Shapes = {"c1", "c3"}', "Rich = FALSE": "Rich = TRUE"}),
+                ("svm", "k", {"K = 1": "K = 2"})]
+    return [("arff", "k2rich", {"K = 1": "K = 2", 'Shapes = {"nsc"}': 'Shapes = {"nsc", "sc", "cns", "dn", "s", "nnc", "ssn"}', "Rich = FALSE": "Rich = TRUE"}),
+            ("arff", "k3", {"K = 1": "K = 3", 'Shapes = {"nsc"}': 'Shapes = {"sc"}', "SparseSet = {FALSE, TRUE}": "SparseSet = {FALSE}"}),
+            ("csv", "k2", {"K = 1": "K = 2", 'Shapes = {"nsc"}': 'Shapes = {"c1", "c2", "c3"}', "Rich = FALSE": "Rich = TRUE"}),
+            ("csv", "k3", {"K = 1": "K = 3", 'Shapes = {"nsc"}': 'Shapes = {"c2"}'}),
+            ("svm", "k", {"K = 1": "K = 3"})]
+
+
+class FakeResponse:
+    """What urllib hands to HttpSource.read: headers, charset, a byte stream (HTTP itself is not exercised)."""
+    def __init__(self, body, enc): self.b = io.BytesIO(body); self.headers = {"Content-Encoding": enc} if enc else {}
+    def info(self): return self
+    def get_charsets(self): return ["utf-8"]
+    def read(self, n=-1): return self.b.read(n)
+    def __enter__(self): return self
+    def __exit__(self, *a): return False
+
+
+def lines_or_error(f):
+    try: return list(f())
+    except Exception as e: return "raised %s: %s" % (type(e).__name__, str(e)[:60])
+
+
+def reuse_sources(ctx, d, n, raw, exp, prev, HttpSource, DiskSource, DelimSource, ListSource, DiskSink):
+    """One object, several applications (the spec's Again / AppendRead / reuse rule): every application is compared
+    with the expectation for what it was applied to; `prev` is another text (the second, different input)."""
+    import urllib.request, codecs
+    praw, pexp = prev
+    def bad(sig, what, rep): ctx.violation(sig, what, rep)
+    for ext in ("txt", "txt.gz"):
+        opener = gzip.open if ext.endswith("gz") else open
+        kind = "gz" if ext.endswith("gz") else "plain"
+        # ---- the same DiskSource: read, read again, two reads open at once, the file replaced by another text ----
+        p = os.path.join(d, "re%d.%s" % (n, ext))
+        with opener(p, "wb") as f: f.write(raw)
+        src = DiskSource(p)
+        ctx.case(("disk2", ext, raw)); ctx.traces += 1
+        got1 = lines_or_error(src.read); got2 = lines_or_error(src.read)
+        def inter():
+            g1 = src.read(); head = [x for _, x in zip(range(1), g1)]
+            whole = list(src.read())
+            return [head + list(g1), whole]
+        got3 = lines_or_error(inter)
+        with opener(p, "wb") as f: f.write(praw)
+        got4 = lines_or_error(src.read)
+        rep = dict(raw=raw.decode(), expected=exp, other=praw.decode(), ext=ext)
+        if got1 != exp: bad("disk:source:%s" % kind, "DiskSource on a %s file holding %r gave %r, expected lines %r" % (ext, raw, got1, exp), rep)
+        elif got2 != exp: bad("disk:reused-source:second-read", "the same DiskSource (%s file holding %r) read a second time gave %r, expected %r as the first time" % (ext, raw, got2, exp), rep)
+        elif got3 != [exp, exp]: bad("disk:reused-source:two-reads-open-at-once", "two reads of the same DiskSource (%s file holding %r) consumed alternately gave %r, expected twice %r" % (ext, raw, got3, exp), rep)
+        elif got4 != pexp: bad("disk:reused-source:file-replaced-between-reads", "the same DiskSource read again after its %s file was rewritten with %r gave %r, expected %r" % (ext, praw, got4, pexp), rep)
+        os.remove(p)
+        # ---- the same DiskSink: two writes in a row, inside one `with`, a new sink appending to the file ----
+        for batch in (None, 2):
+            p = os.path.join(d, "app%d.%s" % (n, ext))
+            ctx.case(("sink2", ext, batch, raw)); ctx.traces += 1
+            rep = dict(first=exp, second=pexp, ext=ext, batch=batch)
+            def write2():
+                sink = DiskSink(p, batch=batch)
+                sink.write(list(exp)); sink.write(iter(pexp))
+                return list(DiskSource(p).read()) if os.path.exists(p) else []
+            got = lines_or_error(write2)
+            if got != exp + pexp: bad("disk:reused-sink:second-write", "DiskSink(batch=%r) wrote %r and then %r to a %s file; DiskSource read back %r" % (batch, exp, pexp, ext, got), rep)
+            def append():
+                DiskSink(p, batch=batch).write(list(exp))
+                return list(DiskSource(p).read())
+            got = lines_or_error(append)
+            if got != exp + pexp + exp: bad("disk:reused-sink:append-to-existing-file", "a new DiskSink(batch=%r) appended %r to a %s file holding the lines %r; DiskSource read back %r" % (batch, exp, ext, exp + pexp, got), rep)
+            if os.path.exists(p): os.remove(p)
+            def within():
+                sink = DiskSink(p, batch=batch)
+                with sink:
+                    sink.write(list(pexp)); sink.write(list(exp))
+                sink.write(list(pexp))
+                return list(DiskSource(p).read()) if os.path.exists(p) else []
+            got = lines_or_error(within)
+            if got != pexp + exp + pexp: bad("disk:reused-sink:writes-inside-with", "DiskSink(batch=%r) wrote %r and %r inside one `with` and %r after it (%s file); DiskSource read back %r" % (batch, pexp, exp, pexp, ext, got), rep)
+            if os.path.exists(p): os.remove(p)
+    # ---- the same DelimSource over a re-readable source of text chunks ----
+    k = 1 + n % 4
+    dec = codecs.getincrementaldecoder("utf-8")()
+    chunks = [dec.decode(raw[i:i + k]) for i in range(0, len(raw), k)]
+    ds = DelimSource(ListSource(chunks))
+    ctx.case(("delim2", k, raw)); ctx.traces += 1
+    got1 = lines_or_error(ds.read); got2 = lines_or_error(ds.read)
+    if got1 != exp: bad("delim:source:lines-differ", "DelimSource over the text chunks %r gave %r, expected %r" % (chunks, got1, exp), dict(chunks=chunks, expected=exp))
+    elif got2 != exp: bad("delim:reused-source:second-read", "the same DelimSource over the text chunks %r read a second time gave %r, expected %r" % (chunks, got2, exp), dict(chunks=chunks, expected=exp))
+    # ---- the same HttpSource object: three requests answered with this text, the other text, this text again ----
+    encs = (None, "gzip", "deflate")
+    e1, e2 = encs[n % 3], encs[(n // 3) % 3]
+    body = lambda r, e: r if e is None else compress(r, e, 6)
+    queue = [FakeResponse(body(raw, e1), e1), FakeResponse(body(praw, e2), e2), FakeResponse(body(raw, e1), e1)]
+    real = urllib.request.urlopen
+    urllib.request.urlopen = lambda req, timeout=None: queue.pop(0)
+    try:
+        http = HttpSource("http://c12.invalid/data", chunk_size=1 + n % 5)
+        ctx.case(("http", n % 5, e1, e2, raw, praw)); ctx.traces += 1
+        got = [lines_or_error(http.read) for _ in range(3)]
+    finally:
+        urllib.request.urlopen = real
+    rep = dict(raw=raw.decode(), other=praw.decode(), encodings=[e1, e2, e1], chunk_size=1 + n % 5, expected=[exp, pexp, exp])
+    if got[0] != exp: bad("http:source:lines-differ", "HttpSource(chunk_size=%d).read() on a response holding %r (%s) gave %r, expected %r" % (1 + n % 5, raw, e1 or "identity", got[0], exp), rep)
+    elif got[1] != pexp: bad("http:reused-source:second-response", "the same HttpSource read a second response holding %r (%s) as %r, expected %r (the first response held %r)" % (praw, e2 or "identity", got[1], pexp, raw), rep)
+    elif got[2] != exp: bad("http:reused-source:first-response-again", "the same HttpSource read %r (%s) a second time as %r, expected %r" % (raw, e1 or "identity", got[2], exp), rep)
+
+
+def run_delim(ctx, rng, pool):
+    from coba.pipes.sources import HttpSource, DiskSource, DelimSource, ListSource
+    from coba.pipes.sinks import DiskSink
     texts = {}
     d = os.path.join(ctx.scratch, "disk"); os.makedirs(d, exist_ok=True)
-    for name, sub in runs:
-        cfg = tracecheck._cfg("DatasetFiles.cfg", sub, ctx.scratch, "delim_%s.cfg" % name)
-        r = tlc.run("DatasetFiles", cfg, ctx.scratch, workers=16, timeout=3000, heap="16g")
-        ctx.add_tlc("DatasetFiles_delim_" + name, r)
-        for v in r.violations:
-            ctx.violation("spec:%s" % (v["name"] or v["kind"]), "DatasetFiles.tla (delim) itself violates %s" % v["name"], v["trace"][:40])
+    for name, sub in delim_runs(ctx):
+        r = pool.get("delim", name)
         cases = [j for j in r.json if isinstance(j, dict) and j.get("mode") == "delim"]
         if len(cases) < 500: raise RuntimeError("delim %s produced only %d cases" % (name, len(cases)))
         cases.sort(key=lambda c: json.dumps(c, sort_keys=True))
@@ -148,7 +276,11 @@ def run_delim(ctx, rng):
     ctx.exhaustive = True
     # every text once more: really compressed, every fixed chunk size; whole text in one piece; disk round trips
     n = 0
+    prev = (b"x \r\n\xc3\xa9\n", ["x ", NONASCII])
     for raw, exp in sorted(texts.items()):
+        if n % ctx.pick(3, 2) == 1:
+            reuse_sources(ctx, d, n, raw, exp, prev, HttpSource, DiskSource, DelimSource, ListSource, DiskSink)
+            prev = (raw, exp)
         if raw:
             for enc in ("gzip", "deflate"):
                 comp = compress(raw, enc, 6)
@@ -221,11 +353,15 @@ def arff_expected(c):
     return attrs, rows
 
 
-def read_arff(lines, attrs, rows, sparse, ArffReader):
-    try:
-        got = list(ArffReader().filter(iter(lines)))
-    except Exception as e:
-        return Outcome("raises", "", "%s: %s" % (type(e).__name__, str(e)[:100]))
+def obtain(reader, lines):
+    """reader.filter(lines) as a list of (lazy) rows, or the Outcome of its failure"""
+    try: return list(reader.filter(iter(lines)))
+    except Exception as e: return Outcome("raises", "", "%s: %s" % (type(e).__name__, str(e)[:100]))
+
+
+def read_arff(lines, attrs, rows, sparse, reader, got=None):
+    if got is None: got = obtain(reader, lines)
+    if isinstance(got, Outcome): return got
     if len(got) != len(rows): return Outcome("misread", "row-count", "%d rows instead of %d" % (len(got), len(rows)))
     names = [a["name"] for a in attrs]
     for i, (g, e) in enumerate(zip(got, rows)):
@@ -274,13 +410,16 @@ def show(x):
     return repr(x["s"])
 
 
-def read_csv(c, CsvReader):
+def csv_kw(c): return {} if c["delim"] == "," else dict(delimiter=c["delim"])
+
+
+def read_csv(c, reader, got=None):
     lines = [txt(l) for l in c["lines"]]
     names = [txt(n) for n in c["names"]]
     rows = [[txt(v) for v in r] for r in c["rows"]]
-    kw = {} if c["delim"] == "," else dict(delimiter=c["delim"])
+    if got is None: got = obtain(reader, lines)
+    if isinstance(got, Outcome): return got
     try:
-        got = list(CsvReader(c["hdr"], **kw).filter(iter(lines)))
         if len(got) != len(rows): return Outcome("misread", "row-count", "%d rows instead of %d" % (len(got), len(rows)))
         for i, (g, e) in enumerate(zip(got, rows)):
             vals = list(g)
@@ -294,11 +433,12 @@ def read_csv(c, CsvReader):
     return Outcome("ok")
 
 
-def read_svm(c, LibsvmReader, ManikReader):
+def read_svm(c, reader, got=None):
     lines = c["lines"]
     exp = [({f["i"]: f["n"] / 10 for f in r["feats"]}, list(r["labels"])) for r in c["rows"]]
+    if got is None: got = obtain(reader, lines)
+    if isinstance(got, Outcome): return got
     try:
-        got = list((ManikReader() if c["manik"] else LibsvmReader()).filter(iter(lines)))
         if len(got) != len(exp): return Outcome("misread", "row-count", "%d rows instead of %d" % (len(got), len(exp)))
         for i, (g, e) in enumerate(zip(got, exp)):
             feats, labels = g
@@ -400,18 +540,13 @@ def report(ctx, failures):
         ctx.violation(sig, what, rep)
 
 
-def run_tables(ctx, rng):
+def run_tables(ctx, rng, pool):
     from coba.pipes.readers import ArffReader, CsvReader, LibsvmReader, ManikReader
     failures = []
     stats = dict(ok=0, rejected=0)
-    okcases = []
-    def tlc_cases(mode, name, sub):
-        sub = dict(sub); sub['Mode = "delim"'] = 'Mode = "%s"' % mode
-        cfg = tracecheck._cfg("DatasetFiles.cfg", sub, ctx.scratch, "%s_%s.cfg" % (mode, name))
-        r = tlc.run("DatasetFiles", cfg, ctx.scratch, workers=16, timeout=3000, heap="24g")
-        ctx.add_tlc("DatasetFiles_%s_%s" % (mode, name), r)
-        for v in r.violations:
-            ctx.violation("spec:%s" % (v["name"] or v["kind"]), "DatasetFiles.tla (%s) itself violates %s: the writer and the reference grammar disagree" % (mode, v["name"]), v["trace"][:40])
+    okcases = []; rejcases = []
+    def tlc_cases(mode, name):
+        r = pool.get(mode, name)
         cases = [j for j in r.json if isinstance(j, dict) and j.get("mode") == mode]
         if len(cases) < 100: raise RuntimeError("%s %s produced only %d cases" % (mode, name, len(cases)))
         cases.sort(key=lambda c: (len(c["devs"]), json.dumps(c, sort_keys=True)))
@@ -425,15 +560,9 @@ def run_tables(ctx, rng):
         failures.append((reader, kind, diagnose(reader, c, o, lines) or tags, what, dict(lines=lines, case={k: v for k, v in c.items() if k != "lines"})))
         return False
     # ---------------- ARFF ----------------
-    if ctx.quick:
-        aruns = [("k2", {"K = 1": "K = 2"}),
-                 ("k2ssn", {"K = 1": "K = 2", 'Shapes = {"nsc"}': 'Shapes = {"ssn"}', "SparseSet = {FALSE, TRUE}": "SparseSet = {FALSE}"}),
-                 ("k1", {'Shapes = {"nsc"}': 'Shapes = {"sc", "cns", "dn", "s", "ssn", "nnc"}', "Rich = FALSE": "Rich = TRUE"})]
-    else:
-        aruns = [("k2rich", {"K = 1": "K = 2", 'Shapes = {"nsc"}': 'Shapes = {"nsc", "sc", "cns", "dn", "s", "nnc", "ssn"}', "Rich = FALSE": "Rich = TRUE"}),
-                 ("k3", {"K = 1": "K = 3", 'Shapes = {"nsc"}': 'Shapes = {"sc"}', "SparseSet = {FALSE, TRUE}": "SparseSet = {FALSE}"})]
-    for name, sub in aruns:
-        cases = tlc_cases("arff", name, sub)
+    runs = table_runs(ctx)
+    for name in [n for m, n, _ in runs if m == "arff"]:
+        cases = tlc_cases("arff", name)
         ctx.sample(dict(lines=cases[len(cases) // 3]["lines"], rows=cases[len(cases) // 3]["rows"], common=cases[len(cases) // 3]["common"]), limit=4)
         for c in cases:
             lines = [txt(l) for l in c["lines"]]
@@ -441,34 +570,97 @@ def run_tables(ctx, rng):
             if key in seen: continue
             seen.add(key); ctx.case(key); ctx.traces += 1
             attrs, rows = arff_expected(c)
-            o = read_arff(lines, attrs, rows, c["sparse"], ArffReader)
+            o = read_arff(lines, attrs, rows, c["sparse"], ArffReader())
             if judge("arff-sparse" if c["sparse"] else "arff-dense", c, o, arff_tags(c), lines):
                 okcases.append(("arff", c, lines, attrs, rows))
+            elif o.kind == "raises" and not c["common"]: rejcases.append(("arff", c, lines, attrs, rows))
     # ---------------- CSV ----------------
-    if ctx.quick: cruns = [("k2", {"K = 1": "K = 2", 'Shapes = {"nsc"}': 'Shapes = {"c2"}'}), ("k1", {'Shapes = {"nsc"}': 'Shapes = {"c1", "c3"}', "Rich = FALSE": "Rich = TRUE"})]
-    else: cruns = [("k2", {"K = 1": "K = 2", 'Shapes = {"nsc"}': 'Shapes = {"c1", "c2", "c3"}', "Rich = FALSE": "Rich = TRUE"}), ("k3", {"K = 1": "K = 3", 'Shapes = {"nsc"}': 'Shapes = {"c2"}'})]
-    for name, sub in cruns:
-        cases = tlc_cases("csv", name, sub)
+    for name in [n for m, n, _ in runs if m == "csv"]:
+        cases = tlc_cases("csv", name)
         ctx.sample(dict(lines=cases[len(cases) // 3]["lines"], rows=cases[len(cases) // 3]["rows"]), limit=5)
         for c in cases:
             lines = [txt(l) for l in c["lines"]]
             key = ("csv", c["hdr"], c["delim"], tuple(lines))
             if key in seen: continue
             seen.add(key); ctx.case(key); ctx.traces += 1
-            if judge("csv", c, read_csv(c, CsvReader), plain_tags(c), lines): okcases.append(("csv", c, lines, None, None))
+            o = read_csv(c, CsvReader(c["hdr"], **csv_kw(c)))
+            if judge("csv", c, o, plain_tags(c), lines): okcases.append(("csv", c, lines, None, None))
+            elif o.kind == "raises" and not c["common"]: rejcases.append(("csv", c, lines, None, None))
     # ---------------- LibSVM / Manik ----------------
-    cases = tlc_cases("svm", "k", {"K = 1": "K = %d" % ctx.pick(2, 3)})
+    cases = tlc_cases("svm", "k")
     ctx.sample(dict(lines=cases[len(cases) // 3]["lines"], rows=cases[len(cases) // 3]["rows"]), limit=6)
     for c in cases:
         lines = list(c["lines"])
         key = ("svm", c["manik"], tuple(lines))
         if key in seen: continue
         seen.add(key); ctx.case(key); ctx.traces += 1
-        if judge("manik" if c["manik"] else "libsvm", c, read_svm(c, LibsvmReader, ManikReader), plain_tags(c), lines): okcases.append(("svm", c, lines, None, None))
+        o = read_svm(c, ManikReader() if c["manik"] else LibsvmReader())
+        if judge("manik" if c["manik"] else "libsvm", c, o, plain_tags(c), lines): okcases.append(("svm", c, lines, None, None))
+        elif o.kind == "raises" and not c["common"]: rejcases.append(("svm", c, lines, None, None))
     # ---------------- from disk through Environments.from_supervised / OpenmlSource ----------------
+    reuse_readers(ctx, rng, okcases, rejcases, failures)
     pipeline(ctx, rng, okcases, failures)
     report(ctx, failures)
     ctx.extra["files_read_to_the_table"] = stats["ok"]; ctx.extra["uncommon_spellings_rejected_with_an_error"] = stats["rejected"]
+
+
+def reuse_readers(ctx, rng, okcases, rejcases, failures):
+    """The reuse rule for readers: ONE reader object filters file A, then a different file B of the same format
+    (other attribute list / header / dense vs sparse / dialect choices - another TLC case), then A again; in a
+    third of the histories both row lists are obtained first and B's lazy rows are read before A's; in a quarter the
+    first file is one the reader rejects with an error.  Every application is compared with the spec's table for
+    ITS OWN file; only files a fresh reader reads correctly are used, so any failure here is one of reuse."""
+    from coba.pipes.readers import ArffReader, CsvReader, LibsvmReader, ManikReader
+    groups = {}
+    for k in okcases:
+        fmt, c = k[0], k[1]
+        g = ("arff",) if fmt == "arff" else ("csv", c["hdr"], c["delim"]) if fmt == "csv" else ("svm", c["manik"])
+        groups.setdefault(g, ([], []))[0].append(k)
+    for k in rejcases:
+        fmt, c = k[0], k[1]
+        g = ("arff",) if fmt == "arff" else ("csv", c["hdr"], c["delim"]) if fmt == "csv" else ("svm", c["manik"])
+        if g in groups: groups[g][1].append(k)
+    budget = {"arff": ctx.pick(4000, 40000), "csv": ctx.pick(1600, 12000), "svm": ctx.pick(600, 4000)}
+    total = {f: sum(len(v[0]) for g, v in groups.items() if g[0] == f) for f in budget}
+    n_hist = 0
+    def apply(k, reader, got=None):
+        fmt, c, lines, attrs, rows = k
+        if fmt == "arff": return read_arff(lines, attrs, rows, c["sparse"], reader, got)
+        if fmt == "csv": return read_csv(c, reader, got)
+        return read_svm(c, reader, got)
+    for g in sorted(groups, key=str):
+        oks, rejs = groups[g]
+        if len(oks) < 2: continue
+        name = "arff" if g[0] == "arff" else "csv" if g[0] == "csv" else ("manik" if g[1] else "libsvm")
+        for i in range(max(2, budget[g[0]] * len(oks) // max(1, total[g[0]]))):
+            a, b = rng.choice(oks), rng.choice(oks)
+            if a[2] == b[2]: continue
+            reader = ArffReader() if g[0] == "arff" else CsvReader(g[1], **({} if g[2] == "," else dict(delimiter=g[2]))) if g[0] == "csv" else (ManikReader() if g[1] else LibsvmReader())
+            hist = []            # (position, case, outcome)
+            if i % 4 == 3 and rejs:
+                r = rng.choice(rejs)
+                apply(r, reader)                                      # raises (or not): whatever it does, the next file is read right
+                hist.append(("file-after-a-rejected-file", b, apply(b, reader)))
+                hist.append(("file-after-a-rejected-file", a, apply(a, reader)))
+                first = r
+            elif i % 3 == 1:
+                ga, gb = obtain(reader, a[2]), obtain(reader, b[2])  # both applications made, nothing consumed yet
+                hist.append(("second-file-rows-read-first", b, apply(b, reader, gb)))
+                hist.append(("first-file-rows-read-last", a, apply(a, reader, ga)))
+                first = a
+            else:
+                hist.append(("first-file", a, apply(a, reader)))
+                hist.append(("second-file", b, apply(b, reader)))
+                hist.append(("first-file-again", a, apply(a, reader)))
+                first = a
+            ctx.case(("reuse", name, tuple(first[2]), tuple(b[2]), i % 12)); ctx.traces += 1; n_hist += 1
+            for pos, k, o in hist:
+                if o.kind == "ok": continue
+                what = "ONE %s object was applied to several files; the %s was %s: %s | this file: %r | the other file: %r" % (
+                    type(reader).__name__, pos.replace("-", " "), "rejected" if o.kind == "raises" else "misread (" + o.aspect + ")", o.what, k[2], (b if k is not b else first)[2])
+                failures.append((name, "reused-reader", "%s:reused-reader:%s" % (name, pos), what, dict(first=first[2], second=b[2], failing=k[2], position=pos)))
+                break
+    ctx.extra["reader_reuse_histories"] = n_hist
 
 
 def pipeline(ctx, rng, okcases, failures):
@@ -591,8 +783,11 @@ def run(ctx):
     # LazyDense._enc_all (rows.py 54-61) has a bare `except:` around its yield: a half-consumed row that is
     # garbage-collected prints "generator ignored GeneratorExit" to stderr; harmless noise, not C12's subject
     sys.unraisablehook = lambda *a: None
-    t0 = time.time(); run_delim(ctx, rng); t1 = time.time()
-    run_tables(ctx, rng)
+    pool = TlcPool(ctx, ctx.pick(4, 3))
+    for name, sub in delim_runs(ctx): pool.submit("delim", name, sub, "16g")
+    for mode, name, sub in table_runs(ctx): pool.submit(mode, name, sub, ctx.pick("8g", "16g"))
+    t0 = time.time(); run_delim(ctx, rng, pool); t1 = time.time()
+    run_tables(ctx, rng, pool)
     ctx.extra["seconds"] = dict(delim=round(t1 - t0, 1), tables=round(time.time() - t1, 1))
     ctx.assumptions += [
         "characters outside the spec's alphabet (letters, digits, blank, tab as separator only, , ' \" \\ % ? { } and one non-ASCII character) are not explored; values never contain a line break or a tab",
